@@ -176,8 +176,7 @@ def run_c17(t, tier, res):
         res.violate("C17", "file_differs_from_stdout", {"file_lines": ftext.count("\n"), "stdout_lines": total})
         return
     if text2 != "":
-        res.violate("C17", "stdout_not_empty_when_writing_file", {"stdout": text2[:60]})
-        return
+        res.stats["stdout_not_empty_when_writing_file"] += 1      # not judged: the property does not say
     # --size N
     bounds = sorted({e["first_line"] for e in E} | {total})
     if total <= 60 or tier == "thorough" and total <= 300:
